@@ -109,11 +109,17 @@ func TestVerifC09EndToEnd(t *testing.T) {
 		}
 		// upload start time relative to the end instant of one of the spans
 		ref := spans[rapid.IntRange(0, len(spans)-1).Draw(t, "refSpan")]
-		delta := rapid.SampledFrom([]time.Duration{-time.Second, -time.Nanosecond, 0, time.Nanosecond, time.Second, 36 * time.Hour, 30 * 24 * time.Hour, -3 * 24 * time.Hour}).Draw(t, "delta")
+		delta := rapid.SampledFrom([]time.Duration{-time.Second, -time.Nanosecond, 0, time.Nanosecond, time.Second, 36 * time.Hour, 30 * 24 * time.Hour, -3 * 24 * time.Hour,
+			3 * time.Hour, 9 * time.Hour, -5 * time.Hour}).Draw(t, "delta")
 		if delta.Abs() <= time.Second {
 			boundary = true
 		}
 		start := c09uMidnight(ref.end).Add(delta)
+		// the same instant may be handed over in any location (the start time is an instant; a caller may pass time.Now())
+		if zone := rapid.SampledFrom([]int{0, 0, 0, -8 * 3600, 13 * 3600, -(11*3600 + 1800), 5*3600 + 2700}).Draw(t, "startZoneOffset"); zone != 0 {
+			start = start.In(time.FixedZone("zone", zone))
+			vstats.Label("startInOtherZone")
+		}
 		u := vuUploader(dir, &telemetry.UploadConfig{}, "v0.0.0-0", "http://127.0.0.1:1", start)
 		if err := u.Run(); err != nil {
 			t.Fatalf("Run: %v", err)
